@@ -3,8 +3,8 @@
   Property theorems only (helper lemmas: Proofs/Lemmas/Options.lean).
 
   All statements are about the executable model `EmdModel.Options`: for every variant (classic,
-  ensemble, complete ensemble, masked, the two mask helpers, `get_next_imf` itself, and any of them
-  as `sift_second_layer`'s sift function), for every user dictionary (any keys, any values), every
+  ensemble, complete ensemble, masked, the two mask helpers, `get_next_imf` itself, any of them
+  as `sift_second_layer`'s sift function, and `mask_sift_second_layer`), for every user dictionary (any keys, any values), every
   other top-level keyword and every delivery route.
 
   `Obeys imf env ext cs` (Lemmas/Options.lean) says: the emitted stage calls `cs` consist of complete
@@ -15,6 +15,7 @@
   replacement of a falsy value by the literal).
 -/
 import Proofs.Lemmas.OptionsRoutes
+import Proofs.Lemmas.OptionsTotal
 
 namespace C06
 open Config Options
@@ -76,19 +77,21 @@ theorem stage_opts_effective (r : Route) (v : Variant) (u : User) (hu : WF u) (c
         (fun p d hp => assignA_ext_lookup _ hu.extNodup hp)
     · simp [emit, not_configurable_error v u hcf, bind, Except.bind] at h
   | getFunc =>
+    by_cases hf : takesFunc v = true
+    case neg => simp [emit, hf, bind, Except.bind] at h
     by_cases hcf : Configurable v
     · obtain ⟨c1, c2, c3, c4⟩ := cfg_facts (baseVariant v) hcf
       obtain ⟨K, hK, k1, k2, k3, _⟩ := kwargsConfig_spec (baseVariant v) u c1 c2 c3 c4 hu.clean hu.topSlash
         hu.imfSlash hu.envSlash hu.extSlash
       have h' : runVariant false v K = .ok cs := by
-        simpa [emit, hK, bind, Except.bind, pure, Except.pure, Except.map, partialCall, append_nil] using h
+        simpa [emit, hf, hK, bind, Except.bind, pure, Except.pure, Except.map, partialCall, append_nil] using h
       have ob := runVariant_obeys v h'
       rw [(imfOf_config v K hcf).1, k1, k2, k3] at ob
       rw [(imfOf_config v K hcf).2 u]
       exact ob.congr (fun p d hp => assignA_own_lookup gniOwn gniOwn _ hu.imfNodup (fun _ _ h => gniOwn_self h) hp)
         (fun p d hp => assignA_own_lookup ieOwn envDefaults _ hu.envNodup (fun _ _ h => envDefaults_agree h) hp)
         (fun p d hp => assignA_ext_lookup _ hu.extNodup hp)
-    · simp [emit, not_configurable_error v u hcf, bind, Except.bind, Except.map] at h
+    · simp [emit, hf, not_configurable_error v u hcf, bind, Except.bind, Except.map] at h
 
 /-- **The three delivery routes are indistinguishable at the stages.** Keyword dictionaries,
     an edited `get_config(...)` unpacked into the call, and `SiftConfig.get_func()`: whatever two
@@ -119,6 +122,88 @@ theorem every_stage_reached (r : Route) (v : Variant) (u : User) (hu : WF u) (cs
     fun c hc => List.mem_flatten.mpr ⟨_, hm, hc⟩
   exact ⟨⟨_, sub ⟨.gni, a⟩ (by simp), rfl⟩, ⟨_, sub ⟨.ie, aU⟩ (by simp), rfl, g2⟩, ⟨_, sub ⟨.ie, aL⟩ (by simp), rfl, g3⟩,
     ⟨_, sub ⟨.gpe, gU⟩ (by simp), rfl, g5⟩, ⟨_, sub ⟨.gpe, gL⟩ (by simp), rfl, g6⟩⟩
+
+/-! ### totality: the theorems above are never vacuous for well-formed options
+
+  `Known v u` (Lemmas/OptionsTotal.lean) — **well-formed user options** for variant `v`: every option name is a
+  parameter of the function it is meant for (`imf_opts` names ⊆ get_next_imf's own options, `envelope_opts` names ⊆
+  interp_envelope's, `extrema_opts` names ⊆ get_padded_extrema's, other keywords ⊆ `topKeys v`), no name twice,
+  `interp_method` / `noise_mode` (when given) valid, the three stage options dictionaries or absent (type of `User`),
+  not hidden among the other keywords and without '/' in names (`WF`), and no `imf_opts` for `get_next_imf` itself. -/
+
+/-- which delivery routes exist: keyword dictionaries for every variant; the configuration routes for the variants
+    `get_config` knows (classic, ensemble, complete ensemble, masked — also as second-layer sifts); a ready-made
+    callable (`get_func`) only where a sift function can be handed over (not `mask_sift_second_layer`) -/
+def RouteExists (r : Route) (v : Variant) : Prop :=
+  r = .direct ∨ (Configurable v ∧ (r = .getFunc → takesFunc v = true))
+
+/-- **Totality.** For well-formed user options every variant on every existing route returns its stage calls — and
+    at least one complete chain of them, except `get_mask_freqs` with an explicit frequency, which extracts nothing.
+    Hence `stage_opts_effective`, `route_independent`, `every_stage_reached` apply to every such call. -/
+theorem emit_total (r : Route) (v : Variant) (u : User) (h : Known v u) (hr : RouteExists r v) :
+    ∃ cs, emit false r v u = .ok cs ∧ (baseVariant v ≠ .maskFreqs → cs ≠ []) := by
+  cases r with
+  | direct =>
+    obtain ⟨cs, h1, h2⟩ := runVariant_ok v _ (kwOK_direct v u h)
+    exact ⟨cs, by simpa [emit, bind, Except.bind, pure, Except.pure] using h1, h2⟩
+  | unpackCfg =>
+    rcases hr with hr | ⟨hc, _⟩
+    · cases hr
+    · obtain ⟨cs, h1, h2⟩ := runVariant_ok v _ (kwOK_config v u h hc)
+      exact ⟨cs, by simpa [emit, kwargsConfig_known v u h hc, bind, Except.bind] using h1, h2⟩
+  | getFunc =>
+    rcases hr with hr | ⟨hc, hf⟩
+    · cases hr
+    · obtain ⟨cs, h1, h2⟩ := runVariant_ok v _ (kwOK_config v u h hc)
+      exact ⟨cs, by simpa [emit, hf rfl, kwargsConfig_known v u h hc, bind, Except.bind, Except.map, partialCall,
+        append_nil] using h1, h2⟩
+
+/-- Routes that do not exist fail before any stage is reached, whatever the options: `get_config` raises
+    AttributeError for the entry points it does not know; `mask_sift_second_layer` accepts no callable (TypeError). -/
+theorem emit_route_missing (r : Route) (v : Variant) (u : User) (hr : ¬ RouteExists r v) :
+    (takesFunc v = false ∧ r = .getFunc ∧ emit false r v u = .error .typeError) ∨
+    (¬ Configurable v ∧ emit false r v u = .error .attributeError) := by
+  cases r with
+  | direct => exact absurd (Or.inl rfl) hr
+  | unpackCfg =>
+    have hc : ¬ Configurable v := fun hc => hr (Or.inr ⟨hc, fun e => by cases e⟩)
+    exact Or.inr ⟨hc, by simp [emit, not_configurable_error v u hc, bind, Except.bind]⟩
+  | getFunc =>
+    cases hf : takesFunc v with
+    | false => exact Or.inl ⟨rfl, rfl, by simp [emit, hf, bind, Except.bind]⟩
+    | true =>
+      have hc : ¬ Configurable v := fun hc => hr (Or.inr ⟨hc, fun _ => hf⟩)
+      exact Or.inr ⟨hc, by simp [emit, hf, not_configurable_error v u hc, bind, Except.bind, Except.map]⟩
+
+/-- **Converse: malformed stage options are rejected.** If a call with keyword dictionaries returns at least one
+    chain, then every name in the user's `imf_opts` / `envelope_opts` / `extrema_opts` was a parameter of its stage,
+    none was given twice and the interpolation method was valid.  (Contrapositive: an unknown or repeated option
+    name, or an invalid method, makes the call raise — TypeError / ValueError, see the examples below — instead of
+    being dropped.) -/
+theorem emit_ok_wellformed (v : Variant) (u : User) (hc : TopClean u.top) (cs : List StageCall)
+    (h : emit false .direct v u = .ok cs) (hne : cs ≠ []) :
+    (baseVariant v ≠ .nextImf → GoodImf (optA u.imf)) ∧ GoodEnv (optA u.env) ∧ GoodExt (optA u.ext) := by
+  have h' : runVariant false v (kwargsDirect u) = .ok cs := by
+    simpa [emit, bind, Except.bind, pure, Except.pure] using h
+  obtain ⟨g1, g2, g3⟩ := runVariant_inv v h' hne
+  obtain ⟨e1, e2, e3⟩ := kwArgT_direct u hc
+  rw [e1] at g1; rw [e2] at g2; rw [e3] at g3
+  refine ⟨fun hb => ?_, ?_, ?_⟩
+  · cases hi : u.imf with
+    | none => exact goodImf_nil
+    | some a =>
+      cases a with
+      | nil => exact goodImf_nil
+      | cons p d r => rw [hi] at g1; exact g1 hb _ rfl (fun e => by cases e)
+  · cases hi : u.env with
+    | none => exact goodEnv_nil
+    | some a => rw [hi] at g2; exact g2 _ rfl
+  · cases hi : u.ext with
+    | none => exact ⟨by simp [optA, Assoc.keys], rfl⟩
+    | some a =>
+      cases a with
+      | nil => exact ⟨by simp [optA, Assoc.keys], rfl⟩
+      | cons p d r => rw [hi] at g3; exact g3 _ rfl (fun e => by cases e)
 
 /-! ### D5: what the pinned code did (model of the code before the repair) -/
 
@@ -163,5 +248,79 @@ example : WF pchipUser :=
    by intro p hp; simp [pchipUser, optA, mk, Assoc.keys] at hp; subst hp; decide,
    by simp [pchipUser, optA, Assoc.keys], by simp [NodupKeys, pchipUser, optA, Assoc.keys],
    by simp [NodupKeys, pchipUser, optA, mk, Assoc.keys], by simp [NodupKeys, pchipUser, optA, Assoc.keys]⟩
+
+/-! ### non-vacuity of the totality theorems: every (route, variant) pair -/
+
+/-- `pchipUser` and `rillingUser` are well-formed for every variant -/
+example : ∀ v, Known v pchipUser := fun v =>
+  ⟨⟨⟨rfl, rfl, rfl⟩, by simp [pchipUser, Assoc.keys], by simp [pchipUser, optA, Assoc.keys],
+    by intro p hp; simp [pchipUser, optA, mk, Assoc.keys] at hp; subst hp; decide,
+    by simp [pchipUser, optA, Assoc.keys], by simp [NodupKeys, pchipUser, optA, Assoc.keys],
+    by simp [NodupKeys, pchipUser, optA, mk, Assoc.keys], by simp [NodupKeys, pchipUser, optA, Assoc.keys]⟩,
+   by simp [pchipUser, Assoc.keys], by simp [NodupKeys, pchipUser, Assoc.keys], by simp [pchipUser, optA, Assoc.keys],
+   by intro p hp; simp [pchipUser, optA, mk, Assoc.keys] at hp; subst hp; decide,
+   by simp [pchipUser, optA, Assoc.keys],
+   by intro m hm; simp [-String.reduceToList, pchipUser, optA, mk, Assoc.lookup] at hm; subst hm; decide,
+   by intro m hm; simp [pchipUser, Assoc.lookup] at hm, fun _ => rfl⟩
+
+example : RouteExists .direct .nextImf ∧ RouteExists .unpackCfg (.second .mask) ∧ RouteExists .getFunc .complete ∧
+    RouteExists .unpackCfg .maskSecond ∧ ¬ RouteExists .getFunc .maskSecond ∧ ¬ RouteExists .unpackCfg .nextImfMask := by
+  refine ⟨Or.inl rfl, Or.inr ⟨Or.inr (Or.inr (Or.inr rfl)), fun _ => rfl⟩, Or.inr ⟨Or.inr (Or.inr (Or.inl rfl)), fun _ => rfl⟩,
+    Or.inr ⟨Or.inr (Or.inr (Or.inr rfl)), fun e => by cases e⟩, ?_, ?_⟩
+  · rintro (h | ⟨_, h⟩)
+    · cases h
+    · exact absurd (h rfl) (by decide)
+  · rintro (h | ⟨h, _⟩)
+    · cases h
+    · simp [Configurable, baseVariant] at h
+
+/-- concrete emissions: one chain = 5 stage calls; every entry point on the direct route … -/
+example : ∃ cs, emit false .direct .sift pchipUser = .ok cs ∧ cs.length = 5 := ⟨_, rfl, rfl⟩
+example : ∃ cs, emit false .direct .ensemble pchipUser = .ok cs ∧ cs.length = 5 := ⟨_, rfl, rfl⟩
+example : ∃ cs, emit false .direct .nextImfMask pchipUser = .ok cs ∧ cs.length = 5 := ⟨_, rfl, rfl⟩
+example : ∃ cs, emit false .direct .maskFreqs pchipUser = .ok cs ∧ cs.length = 5 := ⟨_, rfl, rfl⟩
+example : ∃ cs, emit false .direct .nextImf pchipUser = .ok cs ∧ cs.length = 5 := ⟨_, rfl, rfl⟩
+example : ∃ cs, emit false .direct (.second .mask) pchipUser = .ok cs ∧ cs.length = 10 := ⟨_, rfl, rfl⟩
+example : ∃ cs, emit false .direct .maskSecond pchipUser = .ok cs ∧ cs.length = 5 ∧
+    (cs.filter (·.stage = .ie)).map (fun c => c.args.lookup "interp_method".toList) = [some (s "pchip"), some (s "pchip")] :=
+  ⟨_, rfl, rfl, rfl⟩
+/-- … the configuration routes of the variants `get_config` knows … -/
+example : ∃ cs, emit false .unpackCfg .sift rillingUser = .ok cs ∧ cs.length = 5 := ⟨_, rfl, rfl⟩
+example : ∃ cs, emit false .getFunc .sift rillingUser = .ok cs ∧ cs.length = 5 := ⟨_, rfl, rfl⟩
+example : ∃ cs, emit false .unpackCfg .ensemble rillingUser = .ok cs ∧ cs.length = 5 := ⟨_, rfl, rfl⟩
+example : ∃ cs, emit false .getFunc .ensemble rillingUser = .ok cs ∧ cs.length = 5 := ⟨_, rfl, rfl⟩
+example : ∃ cs, emit false .unpackCfg .complete rillingUser = .ok cs ∧ cs.length = 10 := ⟨_, rfl, rfl⟩
+example : ∃ cs, emit false .getFunc .mask rillingUser = .ok cs ∧ cs.length = 10 := ⟨_, rfl, rfl⟩
+example : ∃ cs, emit false .unpackCfg (.second .sift) rillingUser = .ok cs ∧ cs.length = 5 := ⟨_, rfl, rfl⟩
+example : ∃ cs, emit false .getFunc (.second .mask) rillingUser = .ok cs ∧ cs.length = 10 := ⟨_, rfl, rfl⟩
+example : ∃ cs, emit false .unpackCfg .maskSecond rillingUser = .ok cs ∧ cs.length = 5 ∧
+    (cs.filter (·.stage = .gni)).map (fun c => c.args.lookup "stop_method".toList) = [some (s "rilling")] :=
+  ⟨_, rfl, rfl, rfl⟩
+/-- … and the routes that do not exist -/
+example : emit false .getFunc .maskSecond rillingUser = .error .typeError := rfl
+example : emit false .unpackCfg .nextImfMask rillingUser = .error .attributeError := rfl
+example : emit false .getFunc .nextImf pchipUser = .error .attributeError := rfl
+
+/-- malformed options and their error kinds: unknown option name → TypeError (every dictionary, several variants and
+    routes); invalid interpolation method → ValueError; invalid noise mode → ValueError; `imf_opts` handed to
+    `get_next_imf` → TypeError; unknown top-level keyword → TypeError -/
+def badImf : User := { top := .nil, imf := some (mk [("nope", i 1)]), env := none, ext := none }
+def badEnv : User := { top := .nil, imf := none, env := some (mk [("nope", i 1)]), ext := none }
+def badExt : User := { top := .nil, imf := none, env := none, ext := some (mk [("mode", s "peaks")]) }
+def badMethod : User := { top := .nil, imf := none, env := some (mk [("interp_method", s "cubic")]), ext := none }
+def badNoise : User := { top := mk [("noise_mode", s "both")], imf := none, env := none, ext := none }
+def badTop : User := { top := mk [("nope", i 1)], imf := none, env := none, ext := none }
+example : emit false .direct .sift badImf = .error .typeError := rfl
+example : emit false .direct .maskSecond badImf = .error .typeError := rfl
+example : emit false .direct .complete badEnv = .error .typeError := rfl
+example : emit false .direct .mask badExt = .error .typeError := rfl
+example : emit false .direct (.second .sift) badMethod = .error .valueError := rfl
+example : emit false .direct .maskSecond badMethod = .error .valueError := rfl
+example : emit false .unpackCfg .mask badMethod = .error .valueError := rfl
+example : emit false .direct .ensemble badNoise = .error .valueError := rfl
+example : emit false .direct .nextImf rillingUser = .error .typeError := rfl
+example : emit false .direct .sift badTop = .error .typeError := rfl
+example : ¬ GoodImf (optA badImf.imf) := fun h =>
+  absurd (h.1 "nope".toList (by simp [badImf, optA, mk, Assoc.keys])) (by decide)
 
 end C06
